@@ -65,7 +65,7 @@ CHECKS["C14"] = dict(level="model_checking", engine="crashfs",
    ref="DESIGN.md §4 C14")
 CHECKS["C13"] = dict(level="model_checking", engine="seqx",
    technique="explicit-state breadth-first search over a tenant model (canonical-state deduplication); every reachable model state is reached on the real code by replaying its shortest operation path, and all query forms are evaluated in it",
-   text="Operations ingest(org in {0,1}, index in {a, ab, a-b}), add/remove alias (x, and ab which is also an index name), delete(org, index | a*), rotate; BFS to depth 3 (quick, 207 states) / 4 (thorough). In every state 9 index expressions (names that are prefixes of each other, wildcard, *, alias, lists, unknown) x both organisations x {search, stats count} must return no event of the other organisation, nothing outside the named indexes and everything inside them; deleting removes exactly that organisation's index.",
+   text="Operations ingest(org in {0,1}, index in {a, ab, a-b}), add/remove alias (x, and ab which is also an index name), delete(org, index | a*), rotate; BFS to depth 4 (quick, 761 states) / 5 (thorough). In every state 9 index expressions (names that are prefixes of each other, wildcard, *, alias, lists, unknown) x both organisations x {search, stats count} must return no event of the other organisation, nothing outside the named indexes and everything inside them; deleting removes exactly that organisation's index.",
    note="Multi-tenancy enters through the public seam (GetIdsConditionHook -> [0,1], org id argument of the processing functions). Whether a wildcard expands alias names and which reading wins when an alias shares its name with an index is left open (lower/upper bounds). Metrics tenancy and column listings are not yet in the query forms. Known: aliases of org != 0 never resolve.",
    ref="DESIGN.md §4 C13")
 NOT_YET = {}
